@@ -299,14 +299,15 @@ func instrIndex(ins ssa.Instruction) int {
 // lookupLocal finds the SSA value that holds source variable name at the start
 // of block at (after its φs).
 func (x *Exec) lookupLocal(fr *Frame, name string, at *ssa.BasicBlock, st *State) (Val, bool) {
+	cands := x.varCandidates(fr, name)
+	// a parameter is the variable's value until it is reassigned: the weakest candidate
 	for _, p := range fr.fn.Params {
 		if p.Name() == name {
-			if v, ok := fr.vals[p]; ok {
-				return v, true
+			if _, ok := fr.vals[p]; ok {
+				cands = append(cands, varCand{v: p, blk: fr.fn.Blocks[0], idx: -3})
 			}
 		}
 	}
-	cands := x.varCandidates(fr, name)
 	var best *varCand
 	for i := range cands {
 		c := &cands[i]
